@@ -8,6 +8,8 @@ import EinoV.Model.Engine
 import EinoV.Proofs.C02
 import EinoV.Gen.FactsC02
 import EinoV.Expected.C02
+import EinoV.Proofs.C02Workflow
+import EinoV.Expected.C02Workflow
 
 namespace EinoV.C02
 open EinoV.Engine EinoV.Gen
@@ -103,5 +105,246 @@ theorem skipped_never_fires {V} (ops : ValOps V) (c : Chan V) (h : c.skipped = t
 /-! non-vacuity -/
 example : Triggered ({ ctrl := [("p", Dep.ready), ("q", Dep.skipped)], data := [("p", true)], values := [("p", 3)] } : Chan Nat) := by
   simp [Triggered]
+
+end EinoV.C02
+
+/-! # Workflows: lowering, eager execution
+
+  Model: EinoV/Model/C02Workflow.lean (`WorkflowDef`, `compileW`, the eager loop `runEager`
+  built from the engine's own `calcNext`); proofs: EinoV/Proofs/C02Workflow.lean. -/
+namespace EinoV.C02
+open EinoV.Engine EinoV.Gen
+
+theorem workflow_facts_match :
+    FactsC02.wfAddInputEdge = Expected.C02Workflow.wfAddInputEdge ∧
+    FactsC02.wfAddDependencyEdge = Expected.C02Workflow.wfAddDependencyEdge ∧
+    FactsC02.wfNoDirectEdge = Expected.C02Workflow.wfNoDirectEdge ∧
+    FactsC02.wfOptionsSelectBranches = Expected.C02Workflow.wfOptionsSelectBranches ∧
+    FactsC02.wfBranchSkipsData = Expected.C02Workflow.wfBranchSkipsData ∧
+    FactsC02.edgeFlagsGuardAppends = Expected.C02Workflow.edgeFlagsGuardAppends ∧
+    FactsC02.skipDataSetsNoDataFlow = Expected.C02Workflow.skipDataSetsNoDataFlow ∧
+    FactsC02.eagerWaitsForOne = Expected.C02Workflow.eagerWaitsForOne := by decide
+
+/-- the three ways of declaring a dependency are the flag pairs `workflow.go` passes to
+    `addEdgeWithMappings` (regenerated from the source on every run) -/
+theorem workflow_dependency_kinds (f t : Key) :
+    WDep.input f t = WDep.ofFlags f t FactsC02.wfAddInputEdge ∧
+    WDep.dependency f t = WDep.ofFlags f t FactsC02.wfAddDependencyEdge ∧
+    WDep.noDirect f t = WDep.ofFlags f t FactsC02.wfNoDirectEdge := ⟨rfl, rfl, rfl⟩
+
+/-- **workflow_lowering.** `compileW` (= `Workflow.compile` → `graph.compile`) yields an
+    all-predecessor, eager runner whose predecessor tables and edge lists are exactly the
+    declared ones: control predecessors = sources of control dependencies ∪ nodes with a
+    branch ending here; data predecessors = sources of data dependencies (never a branch);
+    `writeTo` / `controls` of every node likewise; every branch is `noDataFlow`. -/
+theorem workflow_lowering {V} (ops : ValOps V) (w : WorkflowDef V) :
+    ((compileW ops w).dag = FactsC02.workflowIsEagerDag ∧ (compileW ops w).eager = FactsC02.workflowIsEagerDag) ∧
+    (∀ t x, x ∈ lookupList t (compileW ops w).ctrlPreds ↔
+      (∃ d ∈ w.deps, d.control = true ∧ d.to = t ∧ d.from_ = x) ∨ (∃ b ∈ w.branches, b.1 = x ∧ t ∈ b.2.ends)) ∧
+    (∀ t x, x ∈ lookupList t (compileW ops w).dataPreds ↔ ∃ d ∈ w.deps, d.data = true ∧ d.to = t ∧ d.from_ = x) ∧
+    (∀ n, (n ∈ (compileW ops w).nodes ∨ n = (compileW ops w).start) →
+      (∀ t, t ∈ n.writeTo ↔ ∃ d ∈ w.deps, d.data = true ∧ d.from_ = n.key ∧ d.to = t) ∧
+      (∀ t, t ∈ n.controls ↔ ∃ d ∈ w.deps, d.control = true ∧ d.from_ = n.key ∧ d.to = t) ∧
+      (∀ b ∈ n.branches, b.noData = FactsC02.wfBranchSkipsData) ∧
+      n.branches.map (·.ends) = (w.branches.filter (·.1 == n.key)).map (·.2.ends)) := by
+  refine ⟨⟨rfl, rfl⟩, compileW_ctrlPreds ops w, compileW_dataPreds ops w, ?_⟩
+  intro n hn
+  obtain ⟨h1, h2, h3, h4⟩ := compileW_node ops w n hn
+  exact ⟨fun t => by rw [h1]; exact mem_dataOut w n.key t, fun t => by rw [h2]; exact mem_ctrlOut w n.key t, h3, h4⟩
+
+/-- **workflow_lowering_kinds.** Per declaration: `AddInput` = control + data predecessor,
+    `AddDependency` = control only, `WithNoDirectDependency` = data only, a branch = control
+    only — and a pair (f, t) with no data (control) declaration is no data (control) predecessor. -/
+theorem workflow_lowering_kinds {V} (ops : ValOps V) (w : WorkflowDef V) (f t : Key) :
+    (WDep.input f t ∈ w.deps → f ∈ lookupList t (compileW ops w).ctrlPreds ∧ f ∈ lookupList t (compileW ops w).dataPreds) ∧
+    (WDep.dependency f t ∈ w.deps → f ∈ lookupList t (compileW ops w).ctrlPreds) ∧
+    (WDep.noDirect f t ∈ w.deps → f ∈ lookupList t (compileW ops w).dataPreds) ∧
+    (∀ b, (f, b) ∈ w.branches → t ∈ b.ends → f ∈ lookupList t (compileW ops w).ctrlPreds) ∧
+    ((∀ d ∈ w.deps, d.from_ = f → d.to = t → d.data = false) → f ∉ lookupList t (compileW ops w).dataPreds) ∧
+    ((∀ d ∈ w.deps, d.from_ = f → d.to = t → d.control = false) → (∀ b ∈ w.branches, b.1 = f → t ∉ b.2.ends) →
+      f ∉ lookupList t (compileW ops w).ctrlPreds) := by
+  refine ⟨?_, ?_, ?_, ?_, ?_, ?_⟩
+  · intro h
+    exact ⟨(compileW_ctrlPreds ops w t f).mpr (Or.inl ⟨_, h, rfl, rfl, rfl⟩),
+           (compileW_dataPreds ops w t f).mpr ⟨_, h, rfl, rfl, rfl⟩⟩
+  · intro h; exact (compileW_ctrlPreds ops w t f).mpr (Or.inl ⟨_, h, rfl, rfl, rfl⟩)
+  · intro h; exact (compileW_dataPreds ops w t f).mpr ⟨_, h, rfl, rfl, rfl⟩
+  · intro b hb ht; exact (compileW_ctrlPreds ops w t f).mpr (Or.inr ⟨_, hb, rfl, ht⟩)
+  · intro h hm
+    obtain ⟨d, hd, h1, h2, h3⟩ := (compileW_dataPreds ops w t f).mp hm
+    rw [h d hd h3 h2] at h1; cases h1
+  · intro h hb hm
+    rcases (compileW_ctrlPreds ops w t f).mp hm with ⟨d, hd, h1, h2, h3⟩ | ⟨b, hbm, h1, h2⟩
+    · rw [h d hd h3 h2] at h1; cases h1
+    · exact hb b hbm h1 h2
+
+/-- `calculateNextTasks` is `calcCore` (resolve, update, hand out) followed by the END check -/
+theorem calcNext_is_core_then_classify {V} (ops : ValOps V) (r : Runner V) (cm : Chans V) (done : List (Done V)) :
+    calcNext ops r cm done = (calcCore ops r cm done).bind classify := calcNext_eq_core ops r cm done
+
+/-- **eager_batch_agree_partial** (one step of "the eager run executes what the batch run
+    executes"). In an all-predecessor runner let `a`, `b` be completed tasks of different nodes
+    whose completions report no skip (no branch, or every branch end selected), `b` still
+    pending. Taking `a` alone (resolve, hand out the ready inputs — the eager loop), then `b`,
+    reaches exactly the channels that the batch `[a, b]` reaches (`waitAll`), hands out the
+    same (node, input) pairs as a multiset, and sees a merge failure iff the batch does.
+    Partial: completions that report skips are not covered (see `EagerConfluenceGoal`). -/
+theorem eager_batch_agree_partial {V} (ops : ValOps V) (r : Runner V) (hdag : r.dag = true) (cm : Chans V)
+    (na nb : Node V) (a b : Done V) (selA selB : List Key)
+    (ha : SkipFree r na a selA) (hb : SkipFree r nb b selB) (hne : a.1 ≠ b.1)
+    (hpend : Pending r nb selB b cm) (hpred : AllHavePreds cm) :
+    ∃ cmA rdA badA cmAB rdB badB rdAB,
+      calcCore ops r cm [a] = .ok (cmA, rdA, badA) ∧
+      calcCore ops r cmA [b] = .ok (cmAB, rdB, badB) ∧
+      calcCore ops r cm [a, b] = .ok (cmAB, rdAB, badA || badB) ∧
+      rdAB.Perm (rdA ++ rdB) :=
+  calcCore_seq_eq_batch ops r hdag cm na nb a b selA selB ha hb hne hpend hpred
+
+/-- **eager_completion_order_partial** (the diamond: one step of "for every completion
+    schedule …"). Same setting, both tasks pending, `mergeValues` insensitive to the order of
+    its arguments. If taking `a` then `b`, one completion at a time, neither returns a result
+    nor fails (they do not race for END), then taking `b` then `a` does not either, submits
+    the same tasks (same nodes, same inputs, as a multiset) and reaches the same channels up
+    to the order in which values were reported; and the batch `[a, b]` does the same. -/
+theorem eager_completion_order_partial {V} (ops : ValOps V) (hm : MergePerm ops) (r : Runner V)
+    (hdag : r.dag = true) (cm : Chans V) (na nb : Node V) (a b : Done V) (selA selB : List Key)
+    (ha : SkipFree r na a selA) (hb : SkipFree r nb b selB) (hne : a.1 ≠ b.1)
+    (hpa : Pending r na selA a cm) (hpb : Pending r nb selB b cm) (hpred : AllHavePreds cm)
+    (cmA cmAB : Chans V) (tsA tsB : List (Key × V))
+    (h1 : calcNext ops r cm [a] = .ok (cmA, .tasks tsA))
+    (h2 : calcNext ops r cmA [b] = .ok (cmAB, .tasks tsB)) :
+    (∃ ts, calcNext ops r cm [a, b] = .ok (cmAB, .tasks ts) ∧ ts.Perm (tsA ++ tsB)) ∧
+    (∃ cmB cmBA tsB' tsA',
+      calcNext ops r cm [b] = .ok (cmB, .tasks tsB') ∧ calcNext ops r cmB [a] = .ok (cmBA, .tasks tsA') ∧
+      ChansEquiv cmAB cmBA ∧ (tsA ++ tsB).Perm (tsB' ++ tsA')) :=
+  calcNext_diamond ops hm r hdag cm na nb a b selA selB ha hb hne hpa hpb hpred cmA cmAB tsA tsB h1 h2
+
+/-- the same at the level of channels / ready inputs / merge failures, END or not -/
+theorem eager_completion_order_core_partial {V} (ops : ValOps V) (hm : MergePerm ops) (r : Runner V)
+    (hdag : r.dag = true) (cm : Chans V) (na nb : Node V) (a b : Done V) (selA selB : List Key)
+    (ha : SkipFree r na a selA) (hb : SkipFree r nb b selB) (hne : a.1 ≠ b.1)
+    (hpa : Pending r na selA a cm) (hpb : Pending r nb selB b cm) (hpred : AllHavePreds cm) :
+    ∃ cmA rdA badA cmAB rdB badB cmB rdB' badB' cmBA rdA' badA',
+      calcCore ops r cm [a] = .ok (cmA, rdA, badA) ∧ calcCore ops r cmA [b] = .ok (cmAB, rdB, badB) ∧
+      calcCore ops r cm [b] = .ok (cmB, rdB', badB') ∧ calcCore ops r cmB [a] = .ok (cmBA, rdA', badA') ∧
+      ChansEquiv cmAB cmBA ∧ (rdA ++ rdB).Perm (rdB' ++ rdA') ∧ (badA || badB) = (badB' || badA') :=
+  calcCore_diamond ops hm r hdag cm na nb a b selA selB ha hb hne hpa hpb hpred
+
+/-! ### the full run-level statement (goal, not proved)
+
+  `EinoV.Engine.EagerConfluenceGoal` (Proofs/C02Workflow.lean):
+    ∀ V ops, MergePerm ops → ∀ w : WorkflowDef V, w.WF → ∀ x pick pick' v,
+      (runEager ops (compileW ops w) pick x).result = .ok v →
+        (runEager … pick' x).result = .ok v ∧ (runEager … pick x).submitted.Perm (runEager … pick' x).submitted ∧
+        (runEager … pick x).abandoned = [] ∧
+        (run ops (compileW ops w) x).result = .ok v ∧ (run …).trace.flatten.Perm (runEager … pick x).submitted
+  `WF` excludes exactly the two shapes with known findings; without `noEdgeAndBranch` the
+  statement is false (`edge_and_branch_schedule_dependent`), without `hasCtrlPred` "at most
+  once" is false (`node_without_predecessor_runs_repeatedly`). The correspondence check
+  (harness/props/c02_workflow.go) tests the goal on generated workflows against the real
+  runtime under enforced completion orders. -/
+
+/-! ### non-vacuity, instances of the goal, negation witnesses -/
+
+def natOps : ValOps Nat := { merge := fun l => some (l.foldl (· + ·) 0), zero := 0 }
+
+theorem foldl_add_perm (l l' : List Nat) (h : l.Perm l') (z : Nat) : l.foldl (· + ·) z = l'.foldl (· + ·) z := by
+  induction h generalizing z with
+  | nil => rfl
+  | cons x _ ih => simp only [List.foldl_cons]; exact ih _
+  | swap x y l => simp only [List.foldl_cons]; congr 1; omega
+  | trans _ _ ih1 ih2 => exact (ih1 z).trans (ih2 z)
+
+/-- the hypothesis `MergePerm` is satisfiable -/
+theorem natOps_mergePerm : MergePerm natOps := by
+  intro l l' h
+  simp only [natOps, foldl_add_perm l l' h 0]
+
+/-- START→a, START→b (inputs); c: input from a, control-only dependency on b;
+    d: control-only dependency on b, data-only dependency on a; c and d feed END -/
+def wDiamond : WorkflowDef Nat :=
+  { nodes := [("a", fun v => .ok (v + 1)), ("b", fun v => .ok (v + 2)), ("c", fun v => .ok (v + 10)), ("d", fun v => .ok (v + 20))],
+    deps := [WDep.input START "a", WDep.input START "b", WDep.input "a" "c", WDep.dependency "b" "c",
+             WDep.dependency "b" "d", WDep.noDirect "a" "d", WDep.input "c" END, WDep.input "d" END],
+    branches := [] }
+
+def rD : Runner Nat := compileW natOps wDiamond
+/-- the channels after START was resolved: a and b are running -/
+def cmD : Chans Nat := match calcNext natOps rD (initChans rD) [(START, 5)] with | .ok (cm, _) => cm | .error _ => []
+def naD : Node Nat := wDiamond.mkNode "a" (fun v => .ok (v + 1))
+def nbD : Node Nat := wDiamond.mkNode "b" (fun v => .ok (v + 2))
+
+/-- the hypotheses of the two-completion theorems hold in a reachable, non-trivial state:
+    two running tasks, a shared successor with a control-only and a combined dependency, a
+    successor with a data-only dependency -/
+example : calcNext natOps rD (initChans rD) [(START, 5)] = .ok (cmD, .tasks [("a", 5), ("b", 5)]) ∧
+    SkipFree rD naD ("a", 6) [] ∧ SkipFree rD nbD ("b", 7) [] ∧
+    Pending rD naD [] ("a", 6) cmD ∧ Pending rD nbD [] ("b", 7) cmD ∧ AllHavePreds cmD :=
+  ⟨by decide, skipFree_of_no_branches rD naD ("a", 6) rfl rfl, skipFree_of_no_branches rD nbD ("b", 7) rfl rfl,
+   by unfold Pending; decide, by unfold Pending; decide, by unfold AllHavePreds; decide⟩
+
+/-- … and there the conclusion is not trivial: neither completion alone makes anything ready,
+    both together make c (input = a's output only) and d (input = a's output, data-only) ready -/
+example : (calcCore natOps rD cmD [("a", 6)]).toOption.map (·.2.1) = some [] ∧
+    (calcCore natOps rD cmD [("b", 7)]).toOption.map (·.2.1) = some [] ∧
+    (calcCore natOps rD cmD [("a", 6), ("b", 7)]).toOption.map (·.2.1) = some [("c", 6), ("d", 6)] := by decide
+
+def okv (o : EOutcome Nat) : Option Nat := match o.result with | .ok v => some v | .error _ => none
+
+/-- instance of the goal: three completion schedules and the batch run of `wDiamond` agree -/
+example : okv (runEager natOps rD (fun _ => 0) 5) = some 42 ∧
+    okv (runEager natOps rD (fun l => l.length - 1) 5) = some 42 ∧ okv (runEager natOps rD (fun _ => 1) 5) = some 42 ∧
+    (run natOps rD 5).okVal? = some 42 ∧
+    (runEager natOps rD (fun _ => 0) 5).completed = ["a", "b", "c", "d"] ∧
+    (runEager natOps rD (fun l => l.length - 1) 5).completed = ["b", "a", "d", "c"] ∧
+    (runEager natOps rD (fun l => l.length - 1) 5).submitted = [("a", 5), ("b", 5), ("c", 6), ("d", 6)] := by decide
+
+/-- a branch without data flow: START→p; p's branch {u, v} picks u; u→t, v→t (dependencies);
+    t takes its data from p only (data-only: the branch handles the order); t→END -/
+def wBranch : WorkflowDef Nat :=
+  { nodes := [("p", fun v => .ok (v + 1)), ("u", fun v => .ok (v + 100)), ("v", fun v => .ok (v + 200)), ("t", fun v => .ok (v * 2))],
+    deps := [WDep.input START "p", WDep.dependency "u" "t", WDep.dependency "v" "t", WDep.noDirect "p" "t", WDep.input "t" END],
+    branches := [("p", { ends := ["u", "v"], cond := fun _ => .ok ["u"] })] }
+
+/-- the unselected end is skipped, the selected one runs on the zero value (control-only
+    input), the join runs once on exactly its data-only predecessor's output -/
+example : (runEager natOps (compileW natOps wBranch) (fun _ => 0) 3).submitted = [("p", 3), ("u", 0), ("t", 4)] ∧
+    okv (runEager natOps (compileW natOps wBranch) (fun _ => 0) 3) = some 8 ∧
+    (run natOps (compileW natOps wBranch) 3).okVal? = some 8 := by decide
+
+/-- START→p, START→q; p→n by a dependency AND n an end of p's branch (which picks m);
+    q's branch {n, x} picks x; n, m, x feed END -/
+def wEdgeBranch : WorkflowDef Nat :=
+  { nodes := [("p", fun v => .ok (v + 1)), ("q", fun v => .ok (v + 2)), ("n", fun _ => .ok 7),
+              ("m", fun _ => .ok 1), ("x", fun _ => .ok 1)],
+    deps := [WDep.input START "p", WDep.input START "q", WDep.dependency "p" "n",
+             WDep.input "n" END, WDep.dependency "m" END, WDep.dependency "x" END],
+    branches := [("p", { ends := ["n", "m"], cond := fun _ => .ok ["m"] }),
+                 ("q", { ends := ["n", "x"], cond := fun _ => .ok ["x"] })] }
+
+/-- **edge_and_branch_schedule_dependent** (negation witness for the goal without
+    `WF.noEdgeAndBranch`; the shape of the known C02 finding of DESIGN.md §5). When p finishes
+    before q, the dependency p→n overwrites the skip p's branch reported: n runs, the result
+    is n's output. When q finishes first, n is already fully skipped when p's dependency
+    arrives: n never runs and END gets the zero value. Both runs succeed. -/
+theorem edge_and_branch_schedule_dependent :
+    okv (runEager natOps (compileW natOps wEdgeBranch) (fun _ => 0) 0) = some 7 ∧
+    (runEager natOps (compileW natOps wEdgeBranch) (fun _ => 0) 0).completed = ["p", "q", "m", "n", "x"] ∧
+    okv (runEager natOps (compileW natOps wEdgeBranch) (fun l => l.length - 1) 0) = some 0 ∧
+    (runEager natOps (compileW natOps wEdgeBranch) (fun l => l.length - 1) 0).completed = ["q", "x", "p", "m"] := by
+  decide
+
+/-- START→a→b→END and a node o that nobody declared a dependency for -/
+def wOrphan : WorkflowDef Nat :=
+  { nodes := [("a", fun v => .ok (v + 1)), ("b", fun v => .ok (v + 1)), ("o", fun _ => .ok 5)],
+    deps := [WDep.input START "a", WDep.input "a" "b", WDep.input "b" END], branches := [] }
+
+/-- **node_without_predecessor_runs_repeatedly** (negation witness for "at most once" without
+    `WF.hasCtrlPred`). A channel without any predecessor is ready at every
+    `getFromReadyChannels`: the node is submitted again after every completion. -/
+theorem node_without_predecessor_runs_repeatedly :
+    (runEager natOps (compileW natOps wOrphan) (fun _ => 0) 0).submitted
+      = [("a", 0), ("o", 0), ("b", 1), ("o", 0), ("o", 0)] ∧
+    okv (runEager natOps (compileW natOps wOrphan) (fun _ => 0) 0) = some 2 := by decide
 
 end EinoV.C02
